@@ -82,7 +82,10 @@ def run_checks(sid, dst, checks, meta):
     if out.strip():
         print("refusing: %s is not clean:\n" % repo + out)
         sys.exit(2)
-    rc, out = sh("git -C %s apply %s" % (repo, os.path.join(dst, "patch.diff")))
+    # patch.current.diff: the same change carried over by hand to the tree as it is after a later
+    # fix: commit touched the lines it was written against (patch.diff stays as delivered)
+    cur = os.path.join(dst, "patch.current.diff")
+    rc, out = sh("git -C %s apply %s" % (repo, cur if os.path.isfile(cur) else os.path.join(dst, "patch.diff")))
     if rc != 0:
         # written against an earlier tree (a later fix: commit touched the same lines): merge it
         sh("git -C %s checkout -- ." % repo)
